@@ -287,7 +287,7 @@ fn deep(ctx: &mut Ctx, per_shard: usize) {
 
 fn run(ctx: &mut Ctx) {
     table(ctx);
-    deep(ctx, ctx.tier.of(80_000, 1_500_000));
+    deep(ctx, ctx.tier.of(300_000, 3_000_000));
 }
 
 fn finish(m: &Merged, tier: Tier) -> Finish {
@@ -301,7 +301,7 @@ fn finish(m: &Merged, tier: Tier) -> Finish {
     };
     f.floors.push(floor(format!("rule-table rows exercised ({seen}/{})", rules.len()), seen == rules.len()));
     f.floors.push(floor(format!("cells exercised: {}", m.prefix_count("cell:")), m.prefix_count("cell:") >= 900));
-    f.floors.push(floor(format!("deep trees where the None reached the root: {}", m.c("deep:none-reached-root")), m.c("deep:none-reached-root") >= tier.of(20_000, 200_000)));
+    f.floors.push(floor(format!("deep trees where the None reached the root: {}", m.c("deep:none-reached-root")), m.c("deep:none-reached-root") >= tier.of(100_000, 1_000_000)));
     f.extras.insert("rules".into(), json!(m.prefix_map("rule:")));
     f.extras.insert("cells".into(), json!(m.prefix_count("cell:")));
     f.extras.insert("deep".into(), json!(m.prefix_map("deep:")));
